@@ -60,6 +60,7 @@ enum Mode
   M_NMODES
 };
 const int kSpans = 10, kScopes = 48, kRemotes = 6;
+const int kBogus = -2;  // model stack entry: an active span whose context is invalid but not all-zero
 
 std::string hex(const uint8_t *p, size_t n)
 {
@@ -284,8 +285,9 @@ void do_start(TaskState &ts, const Op &op)
     return;
   // ---- model: resolve the parent exactly as the statement says
   trace_api::SpanContext active = trace_api::SpanContext::GetInvalid();
-  if (!ts.active.empty())
+  if (!ts.active.empty() && ts.active.back() != kBogus)
     active = mine[ts.active.back()].span->GetContext();
+  // (an active span with an invalid context - zero trace id, non-zero span id - is no parent)
   trace_api::SpanContext parent = active;
   trace_api::StartSpanOptions opts;
   int mode = (int)op.b;
@@ -577,12 +579,24 @@ void run_program(int idx, const TaskProg &t)
       case OP_SCOPE_BEGIN:
         if (op.b >= 0 && op.b < kScopes && mine[op.a % kSpans].started && !ts.scopes[op.b])
         {
+          bool bogus = (op.c & 1) != 0;
           {
+            nostd::shared_ptr<trace_api::Span> act = mine[op.a % kSpans].span;
+            if (bogus)
+            {
+              // what a sloppy propagator or instrumentation can leave active: a span object whose
+              // context has a span id but no trace id. It is not valid, so it is nobody's parent.
+              uint8_t sidb[8] = {0xde, 0xad, 0xbe, 0xef, 0, 0, 0, (uint8_t)(0x40 + ts.idx)};
+              act = nostd::shared_ptr<trace_api::Span>(new trace_api::DefaultSpan(
+                  trace_api::SpanContext(trace_api::TraceId(), trace_api::SpanId(sidb),
+                                         trace_api::TraceFlags(1), false)));
+              vsim::probe("ident.half_valid_active_span");
+            }
             InOp io;
-            ts.scopes[op.b].reset(new trace_api::Scope(mine[op.a % kSpans].span));
+            ts.scopes[op.b].reset(new trace_api::Scope(act));
           }
-          ts.scope_span[op.b] = (int)(op.a % kSpans);
-          ts.active.push_back((int)(op.a % kSpans));
+          ts.scope_span[op.b] = bogus ? kBogus : (int)(op.a % kSpans);
+          ts.active.push_back(bogus ? kBogus : (int)(op.a % kSpans));
           if (ts.active.size() >= 7)
             vsim::probe("ident.stack_depth_ge7");
           if (ts.active.size() >= 15)
@@ -624,6 +638,13 @@ void run_program(int idx, const TaskProg &t)
       if (cur.IsValid())
         vsim::report("C05.active_span_leak",
                      fmt("task %d has no active span but GetCurrentSpan() is valid (%s)", idx,
+                         sid(cur.span_id()).c_str()));
+    }
+    else if (ts.active.back() == kBogus)
+    {
+      if (cur.IsValid() || sid(cur.span_id()).compare(0, 8, "deadbeef") != 0)
+        vsim::report("C05.active_span_leak",
+                     fmt("task %d: active span is %s, expected the half-valid one", idx,
                          sid(cur.span_id()).c_str()));
     }
     else if (sid(cur.span_id()) != mine[ts.active.back()].span_id)
@@ -727,7 +748,7 @@ void generate(const std::string &, Rng &wl, Rng &fl, Case &c)
       }
       else if (r < 0.75 && nscope < kScopes)
       {
-        p.ops.push_back({OP_SCOPE_BEGIN, (int64_t)wl.below(nspan), nscope, 0, 0});
+        p.ops.push_back({OP_SCOPE_BEGIN, (int64_t)wl.below(nspan), nscope, (int64_t)wl.chance(0.12), 0});
         open_scopes.push_back(nscope++);
       }
       else if (r < 0.87 && !open_scopes.empty())
@@ -860,7 +881,8 @@ std::string describe_op(const Case &, int, const Op &op)
       return fmt("span[%lld] = StartSpan(parent: %s, ref %lld, task %lld)", (long long)op.a,
                  modes[op.b % M_NMODES], (long long)op.c, (long long)op.d);
     case OP_SCOPE_BEGIN:
-      return fmt("scope[%lld] = Scope(span[%lld])", (long long)op.b, (long long)op.a);
+      return (op.c & 1) ? fmt("scope[%lld] = Scope(span with an invalid, non-zero context)", (long long)op.b)
+                        : fmt("scope[%lld] = Scope(span[%lld])", (long long)op.b, (long long)op.a);
     case OP_SCOPE_END:
       return fmt("destroy scope[%lld]", (long long)op.a);
     case OP_END:
